@@ -96,7 +96,15 @@ class Broker:
         d = msg._clone_for_delivery(self.tag, self)
         self.unacked[self.tag] = (q, msg, c)
         self.oplog.append(("deliver", q, msg.message_id, c.instance))
-        self.deliveries.append((q, msg.message_id, c.instance, msg.redelivered))
+        exid = None
+        try:
+            body = msg.body if isinstance(msg.body, str) else msg.body.decode("utf8")
+            doc = json.loads(body)
+            if isinstance(doc, dict) and isinstance(doc.get("context"), dict):
+                exid = (doc["context"].get("Execution") or {}).get("Id")
+        except Exception:
+            pass
+        self.deliveries.append((q, msg.message_id, c.instance, msg.redelivered, exid, msg.correlation_id))
         c._listener(d)
 
     def drop_connection(self, conn):
